@@ -41,6 +41,8 @@ type Case struct {
 	// caller's table, another histogram is created on a subscope from a PREFIX of that same table
 	// (table[:k], same memory - thresholds cut from one table). The table must stay as it was.
 	Prefix int `json:"prefix,omitempty"`
+	// Caps: what the recording reporter says about itself (rec.CapsOf): advisory only
+	Caps int `json:"caps,omitempty"`
 }
 
 var boundPool = []float64{0, math.Copysign(0, -1), 1, -1, 0.5, 2, 10, -10, 1e-300, -1e-300, 1e300, -1e300,
@@ -137,6 +139,7 @@ func gen(t *rapid.T) Case {
 	if rapid.IntRange(0, 3).Draw(t, "prefix?") == 0 {
 		c.Prefix = rapid.IntRange(1, 6).Draw(t, "prefix")
 	}
+	c.Caps = rapid.SampledFrom([]int{0, 0, 0, 1, 2, 3}).Draw(t, "caps")
 	nops := rapid.IntRange(1, 24).Draw(t, "nops")
 	for i := 0; i < nops; i++ {
 		k := rapid.IntRange(0, 12).Draw(t, "opk")
@@ -267,10 +270,12 @@ func run(c Case) (pbt.Outcome, error) {
 	switch c.Mode {
 	case "plain":
 		r := rec.NewStats()
+		r.Caps = rec.CapsOf(c.Caps)
 		log = r.L
 		scope, _ = tally.NewRootScope(tally.ScopeOptions{Reporter: r, OmitCardinalityMetrics: true, DefaultBuckets: rootDefault}, 0)
 	case "cached":
 		r := rec.NewCached()
+		r.Caps = rec.CapsOf(c.Caps)
 		log = r.L
 		scope, _ = tally.NewRootScope(tally.ScopeOptions{CachedReporter: r, OmitCardinalityMetrics: true, DefaultBuckets: rootDefault}, 0)
 	default:
